@@ -160,6 +160,13 @@ func TestC08Rapid(t *testing.T) {
 			}
 			c.Class("l1-denoms-that-differ-only-in-case")
 		}
+		if rapid.IntRange(0, 3).Draw(rt, "presetMetadata") == 0 {
+			// the L2 bank module already has display metadata for the bridged tokens (operator's bank genesis)
+			for _, d := range w.denoms {
+				presetBankMetadata(rt, tc.l2, tcL2Denom(tc, d))
+			}
+			c.Class("l2-bank-metadata-preset")
+		}
 		for _, d := range w.denoms {
 			w.initial[d] = w.holdings(d)
 		}
